@@ -10,7 +10,7 @@ inductive RTy where
   | opt (t : RTy)
   | vec (t : RTy)
   | box (t : RTy)
-  deriving Repr, BEq, DecidableEq, Inhabited
+  deriving Repr, DecidableEq, Inhabited
 
 structure RField where
   rust : String
@@ -22,7 +22,7 @@ structure RField where
   default : Bool := false
   /-- `none` no attribute; `some none` = `#[deprecated]`; `some (some r)` = `#[deprecated(note = r)]` -/
   deprecated : Option (Option String) := none
-  deriving Repr, BEq, DecidableEq, Inhabited
+  deriving Repr, DecidableEq, Inhabited
 
 namespace RField
 def wire (f : RField) : String := f.rename.getD f.rust
@@ -33,7 +33,7 @@ structure RVariant where
   rename : Option String := none
   payload : Option RTy := none
   other : Bool := false
-  deriving Repr, BEq, DecidableEq, Inhabited
+  deriving Repr, DecidableEq, Inhabited
 
 namespace RVariant
 def wire (v : RVariant) : String := v.rename.getD v.name
